@@ -526,6 +526,9 @@ var wKeyCodes = []uint64{0xeb, 0xec, 0xed, 0xe7, 0x1200, 0x1201, 0x1202, 0x1205,
 // varints, key lengths around the expected one, valid and invalid curve points, RSA keys of both sizes
 func wDidKeySystematic(r *rand.Rand) string {
 	code := wKeyCodes[r.Intn(len(wKeyCodes))]
+	if r.Intn(4) != 0 {
+		code = wKeyCodes[r.Intn(8)] // the codecs of the switch
+	}
 	pre := binary.AppendUvarint(nil, code)
 	switch r.Intn(12) {
 	case 0: // over-long (non-canonical) encoding of the same code
@@ -608,6 +611,14 @@ func wGenerate(seed int64, thorough bool) []wOp {
 	hists := [][]string{nil, nil, nil, {"active"}, {"deactivated"}, {"active", "deactivated"}, {"active", "active"}, {"active", "deactivated", "active"}, {"active", "active", "deactivated"}, {"deactivated", "deactivated"}}
 	for ni := 0; ni < nodes; ni++ {
 		ops = append(ops, wOp{Op: "node", Methods: methodSets[(ni+int(seed))%len(methodSets)], Strict: r.Intn(4) != 0})
+		// did:key: the whole decision table (codec x varint shape x key length x key validity), no store involved
+		nk := 40
+		if thorough {
+			nk = 400
+		}
+		for k := 0; k < nk; k++ {
+			ops = append(ops, wOp{Op: "resolve", M: whx("key"), ID: whx(wDidKeySystematic(r)), Tag: "key-systematic", Allow: r.Intn(4) == 0})
+		}
 		for k := 0; k < per; k++ {
 			op := wOp{Op: "resolve", Allow: r.Intn(3) == 0}
 			op.NonNil = !op.Allow && r.Intn(2) == 0
